@@ -111,10 +111,9 @@ class PerCPUVar(Sequence):
 
     def __getitem__(self, key):
         if 0 <= key < len(self):
+            reader = getattr(self.instance.ebpf, self.descriptor.map.name)
             return self.descriptor.unpack(
-                self.instance,
-                getattr(self.instance.ebpf, self.descriptor.map.name)
-                .data[key * self.descriptor.map.size:])
+                self.instance, reader.data[key * reader.size:])
         else:
             raise IndexError(f"no such CPU #{key}")
 
@@ -184,14 +183,17 @@ class ArrayMap(Map):
 
 
 class PerCPUReader:
-    def __init__(self, map, fd):
+    def __init__(self, map, fd, size):
         self.map = map
         self.fd = fd
+        # the size of this program's map: the map descriptor is shared by
+        # all instances of a class, whose sizes differ with their subprograms
+        self.size = size
         self.data = None
 
     def read(self):
         self.data = memoryview(lookup_elem(self.fd, bytes(4),
-                               self.map.size * self.map.cpu_no))
+                               self.size * self.map.cpu_no))
 
 
 class PerCPUArrayMap(ArrayMap):
@@ -233,5 +235,5 @@ class PerCPUArrayMap(ArrayMap):
         self.cpu_no = possible_cpus()
         if fd is None:
             fd = create_map(MapType.PERCPU_ARRAY, 4, self.size, 1)
-        setattr(ebpf, self.name, PerCPUReader(self, fd))
+        setattr(ebpf, self.name, PerCPUReader(self, fd, self.size))
         return fd
